@@ -168,7 +168,7 @@ func init() {
 		},
 		Run:           c01Run,
 		MinNontrivial: 500,
-		Rule: "case k: a reflect.StructOf declaration (nested/namespaced groups, commands to depth 3 by tag and by AddCommand, Commander nodes) with a focus option whose type is typesAll[k mod T], whose home is {root, nested group, namespaced group, command, namespaced group of a command}[k/T mod 5] and which is given (k/5T mod 3)+1 times; an intent-rendered valid argument vector (every admissible spelling, clusters, positionals, command words by name/alias, terminator, pre-existing field contents, plain canary fields). " +
+		Rule: "case k: a reflect.StructOf declaration (nested/namespaced groups, commands to depth 3 by tag and by AddCommand, Commander nodes) with a focus option whose type is typesAll[k mod T], whose home is {root, nested group, namespaced group, command, namespaced group of a command}[k/T mod 5] and which is given (k/5T mod 3)+1 times; an intent-rendered valid argument vector (every admissible spelling, clusters, positionals, command words by name/alias, terminator, pre-existing field contents, plain canary fields); for k mod 6 = 4 also 1-3 options registered through the public AddOption API on the parser / a root group, given as single-token occurrences in front of the vector and compared through the program's own variables. " +
 			"Non-trivial = the parse was executed and every option field, callback log entry, positional and plain field was compared with the denotation; distinct = (cell, spellings of the focus occurrences, command depth, parser options).",
 		Assumptions: []string{"option types are drawn from the harness pool (no arrays/interfaces/user structs without unmarshalers)", "optional-argument options are scalar only; given bare without any optional-value their value is left unjudged", "POSIX option style only"},
 		Technique:   "runtime reference-model monitor: intent-rendered argv, value snapshot + callback log compared with an independent denotation; stratified seeded workload; metamorphic history monitor ([use, change of the public model, use] on one parser vs. a fresh parser of the changed declaration); ownership monitors on caller-held data (the argument vector handed to ParseArgs, lists and maps the program stored into option fields before parsing)",
